@@ -14,7 +14,7 @@ import (
 // C08 — reliable tubes deliver the written byte stream in order, intact and complete.
 
 func init() {
-	Register(&Scenario{Name: "tube-stream", Property: "C08", Fn: scTubeStream})
+	Register(&Scenario{Name: "tube-stream", Property: "C08", Fn: scTubeStream, Yields: true})
 }
 
 // streamFill writes the canonical content of stream `salt` at offset off into b.
@@ -149,6 +149,7 @@ type streamEnd struct {
 	eof     bool
 	rerr    error
 	done    chan struct{}
+	wt      tubes.Tube // the writing end
 }
 
 func scTubeStream(r *Run) {
@@ -171,6 +172,26 @@ func scTubeStream(r *Run) {
 		r.Probe("muxers-on-real-transport")
 	} else {
 		mp = NewMuxPair(r, n, 0)
+	}
+
+	// schedule perturbation inside the tube code in a third of the runs (retransmission loop, window handling,
+	// acknowledgement processing run in different goroutines), and a slow socket under the muxers in a quarter
+	if r.Intn("sched", 3) == 0 {
+		fns := []string{"tubes.(*Reliable).send", "tubes.(*Reliable)", "tubes.(*sender)", "tubes.(*receiver)", "tubes.(*Muxer)", "tubes."}
+		r.ArmYields([]string{fns[r.Intn("sched", len(fns))]}, 1+r.Intn("sched", 6), 1+r.Intn("sched", 60), []float64{0.02, 0.1, 0.5}[r.Intn("sched", 3)])
+		r.YieldsOn(true)
+	}
+	if r.Intn("sched", 4) == 0 {
+		pStall := 0.02 + 0.2*r.Float("sched")
+		for _, ep := range []*Endpoint{mp.EA, mp.EB} {
+			ep := ep
+			ep.WriteStall = func() time.Duration {
+				if !r.Fault("socket-write-stall", ep.Name, pStall) {
+					return 0
+				}
+				return time.Duration(1+r.Intn("stall:"+ep.Name, 100)) * time.Millisecond
+			}
+		}
 	}
 
 	c := &n.Cfg
@@ -321,6 +342,7 @@ func scTubeStream(r *Run) {
 				w, rd = p.b, p.a
 			}
 			e := &streamEnd{name: fmt.Sprintf("tube%d.dir%d", i, dir), salt: r.U64("salt"), done: make(chan struct{})}
+			e.wt, _ = w.(tubes.Tube)
 			switch r.Intn("cfg", 8) {
 			case 0:
 				e.total = 0
@@ -485,7 +507,13 @@ func scTubeStream(r *Run) {
 			if stacks == "" {
 				stacks = BlockedSummary()
 			}
-			r.Violate("C08/incomplete-after-recovery", "%s: %d of %d bytes readable (writer wrote %d, closed=%v) %v after the last fault; faults lasted %v; goroutines:\n  %s", e.name, e.read, e.total, e.written, e.closed, bound, faultsFor, stacks)
+			class := "C08/incomplete-after-recovery"
+			if e.wt != nil && tubes.VerifDupAckLimitHit(e.wt) {
+				// (the listed finding D19: the sender gives the tube up after more than 100 duplicate
+				// acknowledgements in a row)
+				class += "/sender-gave-up-after-100-duplicate-acks"
+			}
+			r.Violate(class, "%s: %d of %d bytes readable (writer wrote %d, closed=%v) %v after the last fault; faults lasted %v; goroutines:\n  %s", e.name, e.read, e.total, e.written, e.closed, bound, faultsFor, stacks)
 		}
 	}
 	r.Sample = append(r.Sample, fmt.Sprintf("tubes=%d streams=%d sent=%d dropped=%d", nTubes, len(ends), n.Sent, n.Dropped))
